@@ -262,6 +262,7 @@ func replayLimitCases(t *testing.T) {
 	}
 	sort.Strings(files)
 	for _, path := range files {
+		fmt.Printf("REPLAY-START property=C14 file=%s\n", path)
 		var lc LimitCase
 		if err := json.Unmarshal(cases[path], &lc); err != nil {
 			t.Fatalf("%s: %v", path, err)
